@@ -10,8 +10,9 @@ C16 — property theorems.  Bit-level IEEE-754 semantics of the exact <cmath> fu
    NaN ↦ NaN, ±inf ↦ ±inf (`rounding_special`).
  * classification partitions the patterns; fabs / copysign / signbit touch the sign bit only.
  * nextafter is adjacent in the value order; fmin/fmax select a lower/upper bound and skip a NaN.
- * tetl's own algorithms (nextafter, fmin, fmax, isfinite, abs_impl, signbit/copysign fallbacks) equal the spec
-   for all inputs (`absImpl_eq`: -0.0 included since the fix); gcem's constant-evaluated floor/ceil/trunc/round
+ * tetl's own algorithms (nextafter, fmin, fmax, isfinite, abs_impl, copysign fallback, the constant-evaluated
+   fmod/remainder ladders) equal the spec for all inputs (`absImpl_eq`: every pattern, -0.0 and NaNs of either sign
+   included; `fmodCt_eq`, `remainderCt_eq`); gcem's constant-evaluated floor/ceil/trunc/round
    (repaired by property C13, model imported from `Tetl.C13.Model`) equal the spec for every pattern and never
    leave the constant-expression subset (`gcemFloor_eq`, `gcemCeil_eq`, `gcemTrunc_eq`, `gcemRound_eq`).
 -/
@@ -137,9 +138,6 @@ theorem copysign_spec (F : Fmt) (x y : Nat) :
     F.sign (F.copysign x y) = F.sign y ∧ F.abs (F.copysign x y) = F.abs x :=
   ⟨sign_withSign F _ _ (abs_lt' F x), abs_withSign F _ _ (abs_lt' F x)⟩
 
-/-- tetl's constant-evaluated signbit (fixed code) is the sign bit -/
-theorem signbitFallback_eq (F : Fmt) (x : Nat) : Model.signbitFallback F x = F.signbit x := rfl
-
 /-- tetl's constant-evaluated copysign (fixed code) equals the spec for every pair of patterns -/
 theorem copysignFallback_eq (F : Fmt) (x y : Nat) (hx : x < 2 ^ F.width) :
     Model.copysignFallback F x y = F.copysign x y := by
@@ -156,11 +154,10 @@ theorem isfinite_eq (F : Fmt) (x : Nat) : Model.isfinite F x = F.isFinite x := b
   · simp [h]
   · simp [h, Nat.lt_asymm h]
 
-/-- tetl's fmin / fmax ladders (fixed code) are the spec -/
-theorem fmin_model_eq (F : Fmt) (x y : Nat) : Model.fmin F x y = F.fmin x y := by
-  unfold Model.fmin Fmt.fmin Model.canon Model.lt; rfl
-theorem fmax_model_eq (F : Fmt) (x y : Nat) : Model.fmax F x y = F.fmax x y := by
-  unfold Model.fmax Fmt.fmax Model.canon Model.lt; rfl
+/- `Model.fmin` / `Model.fmax` (the ladders of fmin.hpp / fmax.hpp) are the same term as the spec up to unfolding:
+   the definitional re-statements `fmin_model_eq` / `fmax_model_eq` (and `signbitFallback_eq`, dead code under GCC)
+   live in Lemmas.lean and are not counted as property theorems; `fmin_spec`, `fmax_spec`, `fmin_nan` below state
+   what that ladder guarantees. -/
 
 /-- fmin returns one of its arguments, a non-NaN one whenever there is one, and it is a lower bound in value order -/
 theorem fmin_spec (F : Fmt) (x y : Nat) (hx : F.isNaN x = false) (hy : F.isNaN y = false) :
@@ -268,35 +265,62 @@ theorem nextafter_special (F : Fmt) (x y : Nat) :
   · intro hx hy hk; simp [hx, hy, hk]
 
 
-/-- `abs_impl` (`n > 0 ? n : n == 0 ? T(0) : n * -1`, repaired: F-C16-abs-negative-zero) equals fabs on every
-    non-NaN pattern, -0.0 included; a NaN stays a NaN (the sign and payload of a NaN result are not observed) -/
-theorem absImpl_eq (F : Fmt) (x : Nat) (hxw : x < 2 ^ F.width) (hn : F.isNaN x = false) :
-    Model.absImpl F x = F.fabs x := by
+/-- `abs_impl` for floating-point types (`etl::signbit(n) ? -n : n`, d9d7c3a: F-C16-fabs-nan-sign; earlier
+    F-C16-abs-negative-zero) equals fabs on EVERY pattern of the format: -0.0, infinities and NaNs of either sign
+    included — the result is the argument with the sign bit cleared and every other bit (a NaN payload too) kept -/
+theorem absImpl_eq (F : Fmt) (x : Nat) (hxw : x < 2 ^ F.width) : Model.absImpl F x = F.fabs x := by
   have hd := decomp F x hxw
-  unfold Model.absImpl Model.neg Fmt.fabs
-  have hk : F.key x = if F.sign x then -(F.abs x : Int) else (F.abs x : Int) := rfl
+  unfold Model.absImpl Model.neg Fmt.fabs Fmt.signbit
   cases hs : F.sign x
-  · simp only [hs, Bool.false_eq_true, if_false, Fmt.withSign, Nat.zero_add] at hd hk
-    by_cases h0 : F.abs x = 0
-    · have h1 : ¬ (0 : Int) < F.key x := by omega
-      have h2 : F.key x = 0 := by omega
-      simp [hn, h1, h2, h0]
-    · have h1 : (0 : Int) < F.key x := by omega
-      simp [hn, h1]; omega
-  · simp only [hs, if_true] at hk
-    have h1 : ¬ (0 : Int) < F.key x := by omega
-    by_cases h0 : F.abs x = 0
-    · have h2 : F.key x = 0 := by omega
-      simp [hn, h1, h2, h0]
-    · have h2 : ¬ F.key x = 0 := by omega
-      simp [hn, h1, h2, Fmt.withSign]
-example : b32.isNaN 0x80000000 = false ∧ Model.absImpl b32 0x80000000 = 0 := by decide  -- -0.0f
+  · simp only [hs, Bool.false_eq_true, if_false, Fmt.withSign, Nat.zero_add] at hd ⊢
+    exact hd.symm
+  · simp [Fmt.withSign]
+example : Model.absImpl b32 0x80000000 = 0 := by decide                    -- -0.0f
+example : Model.absImpl b32 0xFFC00000 = 0x7FC00000 := by decide           -- -NaN: sign cleared, payload kept
+example : Model.absImpl b32 0x7FC00001 = 0x7FC00001 := by decide           -- +NaN with a payload: unchanged
 
-theorem absImpl_nan (F : Fmt) (x : Nat) (hn : F.isNaN x = true) : F.isNaN (Model.absImpl F x) = true := by
-  unfold Model.absImpl Model.neg
-  simp only [hn, Bool.not_true, Bool.false_and, Bool.false_eq_true, if_false]
+/-- corollary for the NaN class (the class `absImpl_eq` excluded before d9d7c3a): the result is a NaN with a
+    clear sign bit -/
+theorem absImpl_nan (F : Fmt) (x : Nat) (hxw : x < 2 ^ F.width) (hn : F.isNaN x = true) :
+    F.isNaN (Model.absImpl F x) = true ∧ F.sign (Model.absImpl F x) = false := by
+  rw [absImpl_eq F x hxw]
+  refine ⟨?_, (fabs_spec F x).1⟩
   unfold Fmt.isNaN at hn ⊢
-  rw [abs_withSign F _ _ (abs_lt' F x)]; exact hn
+  rw [(fabs_spec F x).2]; exact hn
+example : (0xFFC00000 : Nat) < 2 ^ b32.width ∧ b32.isNaN 0xFFC00000 = true := by decide
+
+/-! ### fmod / remainder in constant evaluation -/
+
+/-- The constant-evaluated `detail::fmod` (67c4687: NaN ladder, infinite-divisor rung, then the folded builtin) equals
+    the specification for EVERY pair of patterns: the two rungs are exactly the special cases of C17 7.12.10.1 / F.10.7.1
+    (`x` NaN or `y` NaN or `x` infinite or `y` zero gives NaN; an infinite `y` gives `x`), so the builtin — assumed to be
+    the C function (DESIGN §3) — is reached only for a finite `x` and a finite non-zero `y`, where GCC folds it. -/
+theorem fmodCt_eq (F : Fmt) (hE : 3 ≤ F.ebits) (x y : Nat) : Model.fmod F .ct x y = F.fmod x y := by
+  show Model.fmodCt F x y = _
+  unfold Model.fmodCt Fmt.fmod
+  rw [divInvalid_eq F hE, divisorInf_eq F hE]
+  by_cases h1 : (F.isNaN x || F.isNaN y || F.isInf x || F.isZero y) = true
+  · simp only [h1, if_true]
+  · simp only [h1, Bool.false_eq_true, if_false]
+    by_cases h2 : F.isInf y = true
+    · simp only [h2, if_true]
+    · simp only [h2, Bool.false_eq_true, if_false]
+/-- the same for `detail::remainder` (f0dd916) -/
+theorem remainderCt_eq (F : Fmt) (hE : 3 ≤ F.ebits) (x y : Nat) : Model.remainder F .ct x y = F.remainder x y := by
+  show Model.remainderCt F x y = _
+  unfold Model.remainderCt Fmt.remainder
+  rw [divInvalid_eq F hE, divisorInf_eq F hE]
+  by_cases h1 : (F.isNaN x || F.isNaN y || F.isInf x || F.isZero y) = true
+  · simp only [h1, if_true]
+  · simp only [h1, Bool.false_eq_true, if_false]
+    by_cases h2 : F.isInf y = true
+    · simp only [h2, if_true]
+    · simp only [h2, Bool.false_eq_true, if_false]
+/-- the ladder is reached: (0, inf) takes the second rung, (-0, denorm_min) the builtin, (1, -inf) the second rung
+    (the witnesses of the former finding F-C16-gcem-fmod-constexpr); the guard of the first rung fires on (inf, 1) -/
+example : Model.fmod b32 .ct 0 0x7F800000 = 0 ∧ Model.fmod b32 .ct 0x80000000 1 = 0x80000000 ∧
+    Model.remainder b64 .ct 0x3FF0000000000000 0xFFF0000000000000 = 0x3FF0000000000000 ∧
+    Model.divInvalid b32 0x7F800000 0x3F800000 = true := by decide
 
 /-! ### the constant-evaluated rounding functions (gcem, repaired by property C13) equal the specification
 
